@@ -152,7 +152,51 @@ func moreVariants(names []string) [][]propT {
 	return out
 }
 
+var thoroughDocs bool
+
 func docs() []doc {
+	out := docsQuick()
+	if thoroughDocs {
+		// appended (indices of the quick tier's documents stay): three objects with 0-1 properties each over all six core
+		// type ids, references pointing round the ring; one object with three properties over the core type ids
+		names := []string{"alpha", "beta", "gamma"}
+		one := func(oi int) [][]propT {
+			v := [][]propT{{}}
+			for _, t := range typeIDs {
+				p := propT{Name: "p" + names[oi], Type: t}
+				if t == "ref" {
+					p.Ref = names[(oi+1)%3]
+				}
+				v = append(v, []propT{p})
+			}
+			return v
+		}
+		for _, a := range one(0) {
+			for _, b := range one(1) {
+				for _, c := range one(2) {
+					out = append(out, doc{Objects: []objT{{"alpha", a}, {"beta", b}, {"gamma", c}}})
+				}
+			}
+		}
+		for _, t1 := range typeIDs {
+			for _, t2 := range typeIDs {
+				for _, t3 := range typeIDs {
+					mk := func(n, t string) propT {
+						p := propT{Name: n, Type: t}
+						if t == "ref" {
+							p.Ref = "alpha"
+						}
+						return p
+					}
+					out = append(out, doc{Objects: []objT{{"alpha", []propT{mk("one", t1), mk("two", t2), mk("three", t3)}}}})
+				}
+			}
+		}
+	}
+	return out
+}
+
+func docsQuick() []doc {
 	out := []doc{{}}
 	for _, pa := range propVariants([]string{"one", "two"}, "Beta") {
 		out = append(out, doc{Objects: []objT{{"alpha", pa}}})
@@ -446,6 +490,7 @@ func main() {
 		Level:      "exploration",
 		Exhaustive: true,
 		Batches: func(tier string) []any {
+			thoroughDocs = tier == "thorough"
 			n := len(docs())
 			var out []any
 			for lo := 0; lo < n; lo += 60 {
@@ -458,6 +503,7 @@ func main() {
 			return out
 		},
 		Run: func(tier string, raw json.RawMessage, from int, deadline time.Time) ux.Result {
+			thoroughDocs = thoroughDocs || tier == "thorough"
 			var b batch
 			_ = json.Unmarshal(raw, &b)
 			var res ux.Result
@@ -502,6 +548,7 @@ func main() {
 			}
 			defer func() { drv.in.Close(); _ = drv.cmd.Wait() }()
 			var res ux.Result
+			thoroughDocs = true // a superset with the same indices
 			_ = checkCase(drv, r.Doc, docs()[r.Doc], r.Args, &res)
 			return res.Findings
 		},
